@@ -1560,6 +1560,15 @@ func main() {
 		fmt.Fprintln(os.Stderr, err)
 		os.Exit(2)
 	}
+	if in.CfgStr("Mode", "replay") != "trace" && cf.survive {
+		// survivors arm: supervised replay (chunks of behaviours in child processes), because what the code under
+		// test does wrong after an in-place redeploy may be a panic on one of its own goroutines - that is then
+		// attributed to the behaviour that provoked it instead of taking the whole stage down
+		mbt.Main(func(bi int, beh []mbt.Step, in *mbt.Input, res *mbt.Result) {
+			replay(bi, beh, cf, res, in.Seed)
+		})
+		return
+	}
 	res := &mbt.Result{}
 	// time budget: on a healthy tree a stage takes seconds; a broken tree makes many steps run into
 	// their time-outs. Once the budget is used (or a few violations are in) the rest is skipped.
